@@ -1,5 +1,5 @@
 CONSTANTS MaxK = 2
-          NP = 6
+          NP = 8
 INIT Init
 NEXT Next
 CHECK_DEADLOCK FALSE
